@@ -12,7 +12,7 @@ import OV.Drivers.Loop
 * `C14 fold <prevModified 0|1> <nodes f<id>:<v>,k<id>,u<k>|->`      → `modified=<0|1> nconst=<n>`
 * `C14 kw <aliasing 0|1> <fn refs csv> <bases r:k=v;k=v|…|-> <calls fi:k=v;…/…|-> <target fi:k=v;…> <keys csv>`
                                                                      → `eff=<v|none,…> plain=<…> dicts=<r:k=v;…|…>`
-* `C14 globr <expr> <k=v;k=@c;…|-> <cells c=v;…|-> <cells later c=v;…|->`  (copy / by-reference read off the Gen table)
+* `C14 globr <expr> <k=v;k=@c;…|-> <cells c=v;…|-> <cells later c=v;…|->`  (the code as it is: constants are snapshotted)
                                                                      → `before=<csv> after=<csv> copy=<0|1>`
 * `C14 castable <fn1 consts csv|-> <fn2 consts csv|-> <arg>`        → `castlike=<0|1> resets=<0|1>`
 -/
@@ -207,7 +207,7 @@ def handle (args : List String) : String :=
   | ["globr", e, g, c0, c1] =>
     match parseSExp 64 (e.splitOn ",") with
     | some (body, []) =>
-      let copy := OV.Gen.C14Stash.converterFacts.constByRefSites.isEmpty
+      let copy := true
       let ir := translateR copy (parseRGlobals g) (parseCells c0) body
       let sh := fun (p : GExp) => showCsv (p.consts.map toString)
       s!"before={sh (ir.toProto (parseCells c0))} after={sh (ir.toProto (parseCells c1))} copy={b01 copy}"
